@@ -353,6 +353,24 @@ def build(run):
                               f"action({fname}, [c0, c1, c2])", tmo)
         run.add(f"action-mixed-function-space/{fname}", act_mixed, kind="values")
 
+    # ---- forms without arguments: action / adjoint / energy_norm have nothing to replace; a refusal with a message is fine, an internal error is not
+    def no_arguments():
+        n = 0
+        for nm_, F_ in (("f*g*dx", f * g * dx), ("sin(f)*ds + g*dx(1)", sin(f) * ufl.ds + g * dx(1))):
+            for fname_, fn_ in (("action(F)", lambda F__: action(F__)), ("action(F, g)", lambda F__: action(F__, g)), ("functional(F)", lambda F__: ufl.functional(F__)),
+                                ("lhs(F)", lambda F__: ufl.lhs(F__)), ("rhs(F)", lambda F__: ufl.rhs(F__))):
+                n += 1
+                try:
+                    fn_(F_)
+                except (ValueError, RuntimeError) as ex:
+                    if not deliberate(ex):
+                        return violated(f"{fname_} on the functional {nm_}: {crash_text(ex)}", replay={"form": nm_, "call": fname_}, reproduced=True, backend="exec")
+                except (IndexError, KeyError, AttributeError, TypeError) as ex:
+                    return violated(f"{fname_} on the functional {nm_} (a form without arguments) fails with an internal error: {crash_text(ex)}", replay={"form": nm_, "call": fname_},
+                                    reproduced=True, backend="exec")
+        return proved("exec", vcs=n, sample=f"{n} calls on forms without arguments: a result or a refusal, no internal error")
+    run.add("forms-without-arguments/result-or-refusal", no_arguments, kind="values")
+
     def canary():
         F = u * v * dx - f * v * dx
         return check_form(world(), lhs(F), lambda w, key: N.neg(part_sum(derive_world(w, scale={0: 1, 1: 0}), form_parts(F).get(key, []))), [F], "canary lhs is not rhs")
